@@ -137,6 +137,7 @@ func runC11(c *gen.Ctx) error {
 						s := c11Base(n)
 						s.IsRef = isRef
 						s.Dies = dies
+						s.ExitNil = dies >= 0 && variant%2 == 1 // a server that exits cleanly (status 0) is just as dead
 						for i := range s.Cases {
 							switch variant {
 							case 0:
